@@ -33,6 +33,10 @@ MAXDEPTH = 14
 
 
 # --------------------------------------------------------------------------------------------------------------- values
+class CList(tuple):
+    """A local list with known content (only tracked while folding on a known file content)."""
+
+
 class Const:
     __slots__ = ("v",)
 
@@ -305,6 +309,7 @@ class Frame:
     loops: list = field(default_factory=list)
     cls: ClassInfo | None = None
     depth: int = 0
+    globals: set = field(default_factory=set)
 
 
 class _Loop:
@@ -351,6 +356,9 @@ class Interp:
         self.recording = True
         self.called: set[str] = set()
         self.lost_patterns: list[str] = []
+        self.cls_fields: dict = {}
+        self.fold_lists = self.content.concrete
+        self.globals_store: dict = {}
 
     # ------------------------------------------------------------------ heap
     def node(self, key, make):
@@ -546,6 +554,9 @@ class Interp:
         if name in env:
             return env[name]
         v = self.module_value(fr.mod, name, fr)
+        g = self.globals_store.get((fr.mod.name, name))
+        if g is not None:
+            v = join(v, g) if v is not None else g
         if v is not None:
             return v
         if hasattr(builtins, name):
@@ -578,6 +589,11 @@ class Interp:
                 return env
             self.ev(s.value, env, fr)
             return env
+        if isinstance(s, (ast.Assign, ast.AnnAssign)) and self.fold_lists and s.value is not None and self.is_fresh_empty(s.value) and (isinstance(s.value, ast.List) or (isinstance(s.value, ast.Call) and s.value.func.id == "list")):
+            tgt = s.targets[0] if isinstance(s, ast.Assign) and len(s.targets) == 1 else getattr(s, "target", None)
+            if isinstance(tgt, ast.Name):
+                env[tgt.id] = const(CList(()))
+                return env
         if isinstance(s, ast.Assign):
             v = self.ev(s.value, env, fr)
             for t in s.targets:
@@ -623,7 +639,10 @@ class Interp:
             if fr.loops:
                 fr.loops[-1].breaks.append(dict(env))
             return None
-        if isinstance(s, (ast.Pass, ast.Import, ast.ImportFrom, ast.Global, ast.Nonlocal)):
+        if isinstance(s, ast.Global):
+            fr.globals |= set(s.names)
+            return env
+        if isinstance(s, (ast.Pass, ast.Import, ast.ImportFrom, ast.Nonlocal)):
             return env
         if isinstance(s, ast.Assert):
             t, f, ft, _ff = self.test(s.test, env, fr)
@@ -702,7 +721,7 @@ class Interp:
         """Element values one by one when the iterable has a fixed small length."""
         if itv.concrete and len(itv.consts) == 1:
             v = next(iter(itv.consts)).v
-            if isinstance(v, (tuple, list)) and len(v) <= 8:
+            if isinstance(v, (tuple, list)) and len(v) <= 64:
                 return [const(x) for x in v]
             return None
         if len(itv.refs) == 1 and not itv.consts and not itv.top:
@@ -987,6 +1006,12 @@ class Interp:
     def assign(self, target: ast.expr, v: AV, env: dict, fr: Frame, stmt: ast.AST, value: ast.expr | None) -> None:
         if isinstance(target, ast.Name):
             env[target.id] = v
+            if target.id in fr.globals:
+                key = (fr.mod.name, target.id)
+                new = join(self.globals_store.get(key, BOT), v.plain())
+                if new != self.globals_store.get(key):
+                    self.globals_store[key] = new
+                    self.version += 1
         elif isinstance(target, (ast.Tuple, ast.List)):
             n = len(target.elts)
             parts = [BOT] * n
@@ -1018,6 +1043,12 @@ class Interp:
             for nd in base.refs:
                 if isinstance(nd, Rec):
                     self.grow_field(nd, target.attr, v)
+                elif isinstance(nd, Cls):
+                    key = (nd.ci.fq, target.attr)
+                    new = join(self.cls_fields.get(key, BOT), v.plain())
+                    if new != self.cls_fields.get(key):
+                        self.cls_fields[key] = new
+                        self.version += 1
         elif isinstance(target, ast.Subscript):
             base = self.ev(target.value, env, fr)
             k = self.ev(target.slice, env, fr) if not isinstance(target.slice, ast.Slice) else TOPV
@@ -1739,6 +1770,13 @@ class Interp:
         return join(*outs)
 
     def class_attr(self, ci: ClassInfo, attr: str, fr: Frame, self_av: AV | None) -> AV | None:
+        stored = join(*[self.cls_fields[(c.fq, attr)] for c in self.repo.mro(ci) if (c.fq, attr) in self.cls_fields])
+        declared = self._class_attr(ci, attr, fr, self_av)
+        if stored.bottom:
+            return declared
+        return join(stored, declared) if declared is not None else stored
+
+    def _class_attr(self, ci: ClassInfo, attr: str, fr: Frame, self_av: AV | None) -> AV | None:
         for c in self.repo.mro(ci):
             if attr in c.methods:
                 fi = c.methods[attr]
@@ -1822,7 +1860,32 @@ class Interp:
         return self.lib(name, n.recv)
 
     # ------------------------------------------------------------------ calls
+    def _clist_call(self, e: ast.Call, env: dict, fr: Frame) -> AV | None:
+        """`name.append(x)` on a local list with known content."""
+        if not (self.fold_lists and isinstance(e.func, ast.Attribute) and isinstance(e.func.value, ast.Name) and e.func.value.id in env):
+            return None
+        cur = env[e.func.value.id].single()
+        if cur is None or not isinstance(cur.v, CList):
+            return None
+        name, meth = e.func.value.id, e.func.attr
+        args = [self.ev(a, env, fr) for a in e.args]
+        if meth == "append" and len(args) == 1 and args[0].single() is not None:
+            env[name] = const(CList(cur.v + (args[0].single().v,)))
+            return NONE
+        if meth == "extend" and len(args) == 1 and args[0].single() is not None and isinstance(args[0].single().v, (tuple, list)):
+            env[name] = const(CList(cur.v + tuple(args[0].single().v)))
+            return NONE
+        if meth in ("copy", "index", "count"):
+            return None
+        sq = self.seq(fr, e, "list", ("clist", name))
+        self.grow_elem(sq, consts(cur.v) if cur.v else BOT)
+        env[name] = ref(sq)
+        return None
+
     def e_Call(self, e: ast.Call, env, fr):
+        done = self._clist_call(e, env, fr)
+        if done is not None:
+            return done
         f = self.ev(e.func, env, fr)
         args: list[AV] = []
         star: list[bool] = []
